@@ -530,6 +530,8 @@ func c12WideUniverse() *c12Universe {
 		{"o", "a"}, {"n"}, {"t+n"}, {"v+o", "a", "a"},
 		// an argument-taking letter that finds no argument left is skipped; the letters after it still apply
 		{"+ktn"}, {"+lm"}, {"+on"}, {"+l-t+s"}, {"+ovm-l", "a"}, {"+vi-n"},
+		// a key / limit set where there is one already replaces it (the seeds carry "key" and 5)
+		{"+k", "other"}, {"+kk", "k1", "k2"}, {"+l", "7"}, {"-k+k", "x", "re"}, {"+kl-k", "k3", "9"},
 	} {
 		add(opChannelModes, "#x", "", x...)
 	}
